@@ -89,6 +89,10 @@ type Case struct {
 	OrderSeed uint64         `json:"order_seed,omitempty"`
 	Expect    *Violation     `json:"expect,omitempty"`
 	Note      string         `json:"note,omitempty"`
+	// History lists cases (run indices of the same property, seed and tier) that are executed first, in this order and in the
+	// same process: the violation needs what they leave behind in the process (state of the library that outlives a document).
+	History     []uint64 `json:"process_history,omitempty"`
+	HistoryTier string   `json:"process_history_tier,omitempty"`
 }
 
 func (c *Case) C(key string) int {
